@@ -256,3 +256,9 @@ def r8(fx):
 @rule('C05', 'R7', 12, 'public factories forward error / boost_error unchanged')
 def r7(fx):
     yield from wrappers.forwarding(fx, {'error', 'boost_error'})
+
+
+@rule('C05', 'R10', 9, 'sequences: the booster is asked about the version the symbol is built in, and the level it answers is the level of the final message, the format information and Code (C08.R7)')
+def r10(fx):
+    from . import p08
+    yield from p08.sequence_symbols_consistent(fx)
